@@ -635,9 +635,19 @@ func runPull(s Scen) (res result) {
 			subs = append(subs, fmt.Sprintf("(%v, %s)", c.Kind == "addv", nl(l)))
 		}
 	}
-	bpr := s.Batch
+	// the request size is the implementation's choice (a constant capped by MaxSendBlocks): take what this run used,
+	// the largest Max of the block requests the puller sent (see cmd/c11/project.go)
+	var bpr uint64
+	for _, c := range nj.Rec.Log() {
+		if c.Kind == "bfh" && c.Max > bpr {
+			bpr = c.Max
+		}
+	}
 	if bpr == 0 {
-		bpr = 100
+		bpr = s.Batch
+		if bpr == 0 {
+			bpr = 100
+		}
 	}
 	res.coq = fmt.Sprintf("CPull %s (Params 10000 %d %d) %s %s %s %s %s [%s] %d", mgrsim.CoqUniverse(t), bpr, t.Env.Net.HardforkV2.RequireHeight,
 		nl(pathIdx(t, ti)), nl(pathIdx(t, tj)), nl(tried), att, nl(hs), strings.Join(subs, "; "), fin)
